@@ -59,6 +59,9 @@ Definition pp_ensure_init (t : tst) : tst :=
     let l := RoCache.open_rw true (capacity (base t)) (disk_files t) (disk_clock t) in
     {| base := set_disk (base t) (files l) (clock l); pps := l; pp_inited := true; pp_tmps := pp_tmps t |}.
 
+Definition with_pp_free (t : tst) (b : dst) : tst :=
+  {| base := b; pps := pps t; pp_inited := pp_inited t; pp_tmps := pp_tmps t |}.
+
 Inductive tthread :=
 | TMain (th : thread)
 | TMainNR (th : thread)
@@ -66,6 +69,11 @@ Inductive tthread :=
        point, a symlink to another disk): rename(temp, final) fails with EXDEV.  commit has by then ended the
        reservation and made space; it returns the error, the temp file is dropped, nothing is written at the
        final path and nothing is indexed. *)
+| TGetSplit (k : key)
+    (* NOT what the code does — a lookup whose index look-up (under the lock) and utimes + open (after
+       unlocking) are two steps; kept to show that the lock scope of DiskCache::get is load-bearing
+       (C06_split_lookup_refuted) *)
+| TGetLocated (k : key)
 | TPpPut (k : key) (chunks : list (list N))
 | TPpPutW (k : key) (h ino : N) (written : list N) (rest : list (list N))
 | TPpPutDone (r : pres)
@@ -111,6 +119,26 @@ Definition tstep (tid : nat) (t : tst) (th : tthread) : tst * tthread * list tev
           let '(b', m', ev) := step_thread tid (base t) m in
           let ptm := if negb (inited (base t)) && inited b' then [] else pp_tmps t in
           ({| base := b'; pps := pps t; pp_inited := pp_inited t; pp_tmps := ptm |}, TMainNR m', map EMain ev)
+      end
+  | TGetSplit k =>
+      let b := ensure_init (base t) in
+      let ptm := if negb (inited (base t)) then [] else pp_tmps t in
+      match lru_get (lru b) k with
+      | Some (l', _) =>
+          ({| base := with_lru b l'; pps := pps t; pp_inited := pp_inited t; pp_tmps := ptm |}, TGetLocated k, [])
+      | None =>
+          ({| base := b; pps := pps t; pp_inited := pp_inited t; pp_tmps := ptm |},
+           TMain (TGetDone k GMiss), [EMain (EOpen tid k); EMain (ERet tid k GMiss)])
+      end
+  | TGetLocated k =>
+      (* utimes + open, no lock: the path may be gone by now *)
+      match alookup k (disk_files t), alookup k (dir (base t)) with
+      | Some (sz, _), Some ino =>
+          let b := base t in
+          let l := lru b in
+          (with_pp_free t (set_disk b (ains k (sz, clock l + 1) (files l)) (clock l + 1)),
+           TMain (TGetOpen k ino), [EMain (EOpen tid k)])
+      | _, _ => (t, TMain (TGetDone k GErr), [EMain (EOpen tid k); EMain (ERet tid k GErr)])
       end
   | TPpPut k chunks =>
       let t1 := pp_ensure_init t in
